@@ -95,6 +95,8 @@ fn main() {
         }
         Some("big32") => big32(),
         Some("big32-conc") => big32_conc(),
+        #[cfg(feature = "failhooks")]
+        Some("big32-fail") => big32_fail(),
         Some("bighist") => {
             let seed: u64 = arg(&args, "--seed").unwrap_or("20261003").parse().unwrap();
             let from: u64 = arg(&args, "--from").unwrap_or("0").parse().unwrap();
@@ -381,5 +383,105 @@ fn big32_conc() -> i32 {
         }
     }
     println!("big32-conc ok");
+    0
+}
+
+/// Allocation failure on the 32-bit "length inside the heap block" paths, where `truncate` / `pop`
+/// on a *shared* buffer must copy and therefore can fail: the error must come back as `ReserveError`
+/// with every handle and the reference count intact (Miri then sees no use after free and no leak).
+/// Uses the crate's allocator seam with a minimal table: fail the next N requests, else forward.
+#[cfg(feature = "failhooks")]
+fn big32_fail() -> i32 {
+    use lean_string::LeanString;
+    use std::alloc::Layout;
+    use std::sync::atomic::{AtomicUsize, Ordering::SeqCst};
+    static FAIL_NEXT: AtomicUsize = AtomicUsize::new(0);
+    static FAILED: AtomicUsize = AtomicUsize::new(0);
+    fn refuse() -> bool {
+        if FAIL_NEXT.load(SeqCst) > 0 {
+            FAIL_NEXT.fetch_sub(1, SeqCst);
+            FAILED.fetch_add(1, SeqCst);
+            true
+        } else {
+            false
+        }
+    }
+    unsafe fn a(l: Layout) -> *mut u8 {
+        if refuse() { std::ptr::null_mut() } else { unsafe { std::alloc::alloc(l) } }
+    }
+    unsafe fn r(p: *mut u8, l: Layout, n: usize) -> *mut u8 {
+        if refuse() { std::ptr::null_mut() } else { unsafe { std::alloc::realloc(p, l, n) } }
+    }
+    unsafe fn d(p: *mut u8, l: Layout) {
+        unsafe { std::alloc::dealloc(p, l) }
+    }
+    static TABLE: lean_string::verif_hooks::AllocTable = lean_string::verif_hooks::AllocTable { alloc: a, realloc: r, dealloc: d };
+    lean_string::verif_hooks::install(Some(&TABLE));
+    const N: usize = (1 << 24) + 1000;
+    let model = "ab".repeat(N / 2);
+    let bad = |what: &str| -> i32 {
+        println!("VIOLATION-DETAIL {{\"invariant\":\"big32_fail\",\"detail\":\"{what}\"}}");
+        1
+    };
+    let a0 = LeanString::from(model.as_str());
+    // every operation that has to copy a shared > 16 MiB buffer, with the copy refused
+    for op in 0..6 {
+        let mut b = a0.clone();
+        FAIL_NEXT.store(1, SeqCst);
+        let before = FAILED.load(SeqCst);
+        let r = match op {
+            0 => b.try_truncate(N - 10),
+            1 => b.try_pop().map(|_| ()),
+            2 => b.try_push('x'),
+            3 => b.try_remove(0).map(|_| ()),
+            4 => b.try_reserve(5000),
+            _ => b.try_insert_str(3, "zz"),
+        };
+        let fired = FAILED.load(SeqCst) > before;
+        FAIL_NEXT.store(0, SeqCst);
+        // on 64-bit targets truncate/pop on a shared buffer never allocate: then they must succeed
+        if fired {
+            if r.is_ok() {
+                return bad(&format!("op {op}: the copy was refused but the call reported success"));
+            }
+            if b.len() != N || b.as_bytes() != model.as_bytes() {
+                return bad(&format!("op {op}: the failed call changed its target"));
+            }
+        }
+        if a0.len() != N || a0.as_bytes() != model.as_bytes() {
+            return bad(&format!("op {op}: the co-owner changed"));
+        }
+        // the failed handle is fully usable afterwards and is released normally
+        b.push('!');
+        if !b.as_bytes().ends_with(b"!") {
+            return bad(&format!("op {op}: unusable after the failure"));
+        }
+        drop(b);
+        if a0.as_bytes() != model.as_bytes() {
+            return bad(&format!("op {op}: the co-owner changed after the other handle was dropped"));
+        }
+    }
+    // unique long buffer: refused in-place growth and refused shrink across the limit
+    let mut u = a0;
+    FAIL_NEXT.store(1, SeqCst);
+    if u.try_reserve(1 << 20).is_ok() {
+        return bad("refused realloc reported success");
+    }
+    FAIL_NEXT.store(0, SeqCst);
+    u.truncate((1 << 24) - 100);
+    FAIL_NEXT.store(1, SeqCst);
+    let r = u.try_shrink_to_fit();
+    FAIL_NEXT.store(0, SeqCst);
+    if r.is_ok() && u.capacity() != u.len() {
+        return bad("shrink across the limit reported success without shrinking");
+    }
+    if u.as_bytes() != &model.as_bytes()[..(1 << 24) - 100] {
+        return bad("text changed by a refused shrink");
+    }
+    u.shrink_to_fit();
+    u.push_str("tail");
+    drop(u);
+    lean_string::verif_hooks::install(None);
+    println!("big32-fail ok");
     0
 }
